@@ -33,6 +33,8 @@ def apply(b, kw):
         return kw[b[1]]
     if op == "sum":
         return sum(kw[p] for p in b[1:])
+    if op == "gec":  # flag: argument >= constant
+        return kw[b[1]] >= b[2]
     if op == "sum2":  # two outputs: (sum, sum + 1)
         v = sum(kw[p] for p in b[1:])
         return (v, v + 1)
